@@ -1,13 +1,13 @@
 #!/bin/bash
 # usage: tools/run_mutations.sh Cxx [Cyy…]   — runs each delivered change of those agents against its own property's check
-cd /verif
+cd ${VERIF_ROOT:-/verif}
 for id in "$@"; do
-  for d in /tmp/mut/out/$id/[0-9]*; do
+  for d in ${MUTDIR:-/tmp/mut/out}/$id/[0-9]*; do
     [ -f $d/patch.diff ] || continue
     n=$(basename $d)
-    if [ -f build/mutres/$id-$n.txt ] && [ -z "$FORCE" ]; then continue; fi
-    mkdir -p build/mutres
-    echo "##### $id/$n" | tee build/mutres/$id-$n.txt
-    tools/try_mutation.py $d/patch.diff ${PROPS:-$id} 2>&1 | tee -a build/mutres/$id-$n.txt | grep -E "^C[0-9]+ rc|^     |REFUSING|apply"
+    if [ -f build/${MUTRES:-mutres}/$id-$n.txt ] && [ -z "$FORCE" ]; then continue; fi
+    mkdir -p build/${MUTRES:-mutres}
+    echo "##### $id/$n" | tee build/${MUTRES:-mutres}/$id-$n.txt
+    tools/try_mutation.py $d/patch.diff ${PROPS:-$id} 2>&1 | tee -a build/${MUTRES:-mutres}/$id-$n.txt | grep -E "^C[0-9]+ rc|^     |REFUSING|apply"
   done
 done
